@@ -9,6 +9,10 @@ def run(ctx):
     # random deeper programs over every operator, builtin and value kind, recorded from the real evaluator and validated by Trace_Expr
     tr = ctx.record("prog-random", "expr", ["-mode", "prog", "-n", 30000 if ctx.thorough else 2000, "-seed", ctx.seed * 100 + 5])
     ctx.validate("prog-random-validate", "trace/Trace_Expr.tla", "trace/Trace_Expr.cfg", tr, "expr", shards=14 if ctx.thorough else 2)
+    # "no matter how numbers are written": seeded random spellings (separators, fractions, exponents, signs) lexed by the
+    # specification from the bytes; the value the real code gives the literal must be the specification's
+    lt = ctx.record("literals-random", "parse", ["-mode", "numbers", "-n", 40000 if ctx.thorough else 3000, "-seed", ctx.seed * 100 + 45])
+    ctx.validate("literals-random-validate", "trace/Trace_Parse.tla", "trace/Trace_Parse.cfg", lt, "parse", shards=14 if ctx.thorough else 3)
     # the same kind of programs judged node by node (Trace_Nodes): every operator, member access and call on the values its
     # operands were observed to have, so a cell is checked wherever it occurs, not only where the whole program is pinned
     nd = ctx.record("nodes-random", "nodes", ["-n", 8000 if ctx.thorough else 700, "-seed", ctx.seed * 100 + 55])
